@@ -231,3 +231,16 @@ def _max_conn_shape(src):
 
 
 register("tls_max_conn_shape", span_custom("actix-tls/src/accept/mod.rs", _max_conn_shape))
+
+
+def _connection_shape(src):
+    hn = _block(src, r"pub fn hostname\(&self\)\s*->\s*&str\s*\{", "Connection::hostname")
+    facts = [
+        # the name every TLS connector verifies is the request's host name, exactly as the request gives it
+        ("hostname_is_the_requests_unchanged", _has(hn, "pub fn hostname ( & self ) -> & str { self . req . hostname ( ) }")),
+        ("replace_io_keeps_the_request", _has(src, "( self . io , Connection { io , req : self . req } )")),
+    ]
+    return _lean_facts("tlsConnectionShape", facts), hn
+
+
+register("tls_connection_shape", span_custom("actix-tls/src/connect/connection.rs", _connection_shape))
